@@ -16,7 +16,8 @@ RULE = ("(box) exhaustive enumeration of all triples (max1, max2, P) in a box th
         "by a sys.settrace line budget on a stride sample and on any slab that is slow; (far) Hypothesis triples "
         "up to 1e6 biased to highly composite / prime P; (npts) the 4-tuple front end, then the three standard "
         "layouts are built for every rank coordinate (non-empty blocks, connected) and, for P<=12, really "
-        "transposed on a simulated world.  Non-trivial = P composite with >=2 admissible factorisations, or "
+        "transposed on a simulated world; (setup) setupCylindricalGrid on simulated worlds with and without a plot-only "
+        "rank: the grid used by the data ranks must be admissible for the number of DATA ranks.  Non-trivial = P composite with >=2 admissible factorisations, or "
         "none admissible; distinct = distinct triple.")
 ASSUMPTIONS = ["arguments are positive integers (what setups.py passes)",
                "termination is decided as a bounded claim: a line-event budget of 50*(P+max1)+1000 per call"]
@@ -266,7 +267,54 @@ def npts_pred(case):
     return {"nontrivial": len(valid) != 1, "labels": labels}
 
 
+# ------------------------------------------------------------------------------------------------
+# the set-up functions choose the grid for the ranks that hold data (all of them, or all but the plotting rank)
+# ------------------------------------------------------------------------------------------------
+@st.composite
+def setup_cases(draw, tier):
+    npts = [draw(st.integers(4, 7)) for _ in range(4)]      # cubic clamped splines need >= 4 points
+    plot = draw(st.booleans())
+    m1, m2 = min(npts[0], npts[3]), min(npts[2], npts[3])
+    sizes = [P for P in range(2, (5 if tier == "quick" else 8) + 1) if _pairs(P - 1 if plot else P, m1, m2)]
+    if not sizes:
+        plot, sizes = False, [1]
+    P = draw(st.sampled_from(sizes))
+    return {"npts": npts, "P": P, "plot": plot, "drawRank": draw(st.integers(0, P - 1)),
+            "layout": draw(st.sampled_from(["flux_surface", "v_parallel", "poloidal"]))}
+
+
+def _setup_rank(ctx, c):
+    from pygyro.initialisation.setups import setupCylindricalGrid
+    grid, consts, t = setupCylindricalGrid(layout=c["layout"], comm=ctx.comm, plotThread=c["plot"], drawRank=c["drawRank"],
+                                           npts=list(c["npts"]))
+    l = grid.getLayout(grid.currentLayout)
+    return ([int(x) for x in l.nprocs], int(grid.getAllData().size))
+
+
+def setup_pred(c):
+    from ..harness import run_world
+    npts, P = c["npts"], c["P"]
+    ndata = P - 1 if c["plot"] else P
+    m1, m2 = min(npts[0], npts[3]), min(npts[2], npts[3])
+    valid = _pairs(ndata, m1, m2)
+    if not valid:
+        return {"nontrivial": False, "labels": ["no-process-grid"]}
+    res, w = run_world(P, _setup_rank, (c,), key="C20:setup")
+    for rk, (nprocs, size) in enumerate(res):
+        if c["plot"] and rk == c["drawRank"]:
+            continue
+        pair = tuple(nprocs[:2])
+        if pair not in valid:
+            raise Violation("C20:setup:invalid-grid", "npts %s on %d ranks (%d holding data%s): rank %d works with process grid %s; "
+                            "admissible for %d data ranks: %s" % (npts, P, ndata, ", one plot-only rank" if c["plot"] else "", rk,
+                                                                  pair, ndata, valid))
+        if size == 0:
+            raise Violation("C20:setup:empty-block", "npts %s, grid %s: data rank %d owns no point" % (npts, pair, rk))
+    return {"nontrivial": c["plot"] or len(valid) >= 2, "labels": ["P=%d" % P, "plot-only-rank" if c["plot"] else "all-compute"]}
+
+
 SUBS = {
+    "setup": Sub(setup_pred, strategy=setup_cases),
     "box": Sub(box_slab, enumerate=box_enum, exhaustive=True),
     "far": Sub(far_pred, strategy=far_cases),
     "npts": Sub(npts_pred, strategy=npts_cases),
@@ -282,6 +330,7 @@ def jobs(tier):
     out = [{"sub": "box", "shard": i, "nshards": 16} for i in range(16)]
     nf, nn = (300, 150) if tier == "quick" else (20000, 8000)
     out += [{"sub": "far", "n": nf, "shard": i} for i in range(8)]
+    out += [{"sub": "setup", "n": 15 if tier == "quick" else 600, "shard": i} for i in range(4)]
     out += [{"sub": "npts", "n": nn, "shard": i} for i in range(8)]
     return out
 
